@@ -195,10 +195,14 @@ def eval_remover_flow(ctx, R, fname, en_name, en, sugar_kind, expr_remover, is_s
         # an assignment to `_` (the value is discarded, the right-hand side is still desugared and checked)
         discard = vname == "Substitution" and any(f_["name"] == "var" and f_["ty"].replace(" ", "") == "String" for f_ in vdef["fields"])
         if discard:
-            worlds = worlds + [p_ + ("to-underscore",) for p_ in positions]
+            worlds = worlds + [p_ + ("to-underscore",) for p_ in positions] + ["underscore-prefixed-name"]
         for pos in worlds:
             lv = Leaves()
             node, _b = passeval.build_node(en_name, vname, vdef, lv, True)
+            if pos == "underscore-prefixed-name":
+                # `_tmp <-- e` assigns a signal that happens to start with an underscore: only `_` itself discards
+                node[3]["var"] = "_tmp"
+                pos = None
             if pos is not None and pos[-1] == "to-underscore":
                 node[3]["var"] = "_"
                 pos = pos[:-1]
